@@ -56,7 +56,7 @@ Definition payload (t : tx) : tx :=
 Fixpoint le_enc (n : nat) (v : N) : bytes :=
   match n with
   | O => []
-  | S k => v mod 256 :: le_enc k (v / 256)
+  | S k => N.land v 255 :: le_enc k (N.shiftr v 8)   (* v mod 256, v / 256 *)
   end.
 (* truncating like Go's uint16(x) / FillBytes of a value that fits *)
 Definition be_enc (n : nat) (v : N) : bytes := rev (le_enc n v).
@@ -366,6 +366,20 @@ Definition par_agg (b : bytes) : option ((N * list N) * bytes) :=
 Definition check_tx_version (hd : bytes) : N :=
   if bytes_eqb hd (magic ++ [0; tx_version]) then tx_version else 0.
 
+(* the authorization part of DecodeTransaction *)
+Definition par_auth (b : bytes) : option (auth * bytes) :=
+  let? (sl, b) := rd_u16 b in
+  if sl =? max_int then
+    let? (prefix, b) := rd_u16 b in
+    if prefix =? agg_prefix then
+      let? (js, b) := par_agg b in Some (Aggregate (fst js) (snd js), b)
+    else None
+  else if 0 <? sl then
+    (* make([]map, min(sl, SliceCountLimit)): at most that many maps are read *)
+    let? (ms, b) := par_list par_sigs (N.to_nat (N.min sl slice_limit)) b in
+    Some (SigMaps ms, b)
+  else Some (SigMaps [], b).
+
 (* DecodeTransaction; [lim] = SliceCountLimit bounds the reference and key counts *)
 Definition dec_tx_lim (lim : N) (b : bytes) : option tx :=
   let? (hd, b) := rd 4 b in
@@ -384,18 +398,7 @@ Definition dec_tx_lim (lim : N) (b : bytes) : option tx :=
   let? (el, b) := rd_u32 b in
   if extra_cap <? el then None else
   let? (extra, b) := (if 0 <? el then rd el b else Some ([], b)) in
-  let? (sl, b) := rd_u16 b in
-  let? (au, b) :=
-    (if sl =? max_int then
-       let? (prefix, b) := rd_u16 b in
-       if prefix =? agg_prefix then
-         let? (js, b) := par_agg b in Some (Aggregate (fst js) (snd js), b)
-       else None
-     else if 0 <? sl then
-       (* make([]map, min(sl, SliceCountLimit)): at most that many maps are read *)
-       let? (ms, b) := par_list par_sigs (N.to_nat (N.min sl slice_limit)) b in
-       Some (SigMaps ms, b)
-     else Some (SigMaps [], b)) in
+  let? (au, b) := par_auth b in
   match b with
   | [] => Some {| t_version := version; t_asset := asset; t_inputs := ins; t_outputs := outs;
                   t_refs := refs; t_extra := extra; t_auth := au |}
